@@ -41,7 +41,8 @@ Next ==
        [] e.ev = "lq.finish.recv" ->
             /\ Check(e.id \in queued, l, "finish message for a seed that was never queued")
             /\ Check(FinCount(e.id) = 0, l, "seed reported finished twice")
-            /\ Check(AllTerminal(e.tree) \/ (e.id \notin entered /\ e.id \in DOMAIN kind /\ kind[e.id] = "unparsable"), l,
+            \* a queue row whose text is not a URL never becomes a seed: the consumer acknowledges it at once
+            /\ Check(AllTerminal(e.tree) \/ (e.id \notin entered /\ ((e.id \in DOMAIN kind /\ kind[e.id] = "unparsable") \/ (HasKey(e, "parsed") /\ ~e.parsed))), l,
                      "seed reported finished while a node of its tree still awaits fetching or post-processing")
             /\ fins' = (e.id :> FinCount(e.id) + 1) @@ fins /\ UNCHANGED <<queued, kind, entered, reqs>>
        [] e.ev = "quiescent" ->
